@@ -1,6 +1,8 @@
 mod common;
 mod c16;
 mod c19;
+mod c20;
+mod simdir;
 mod iso;
 
 use common::*;
@@ -13,6 +15,7 @@ fn registry(id: &str) -> Option<(RunFn, ReplayFn)> {
     match id {
         "C16" => Some((c16::run, c16::replay)),
         "C19" => Some((c19::run, c19::replay)),
+        "C20" => Some((c20::run, c20::replay)),
         _ => None,
     }
 }
